@@ -3,11 +3,16 @@ package c04
 import (
 	"fmt"
 	"reflect"
+	"strconv"
+	"strings"
 	"time"
 
 	jsonv2 "github.com/go-json-experiment/json"
+	"github.com/go-json-experiment/json/jsontext"
+	jsonv1 "github.com/go-json-experiment/json/v1"
 
 	"verif/internal/evid"
+	"verif/internal/refjson"
 )
 
 // tagLeaks: a member carrying `format:` / `string` together with omitempty / omitzero, whose value is empty in
@@ -143,4 +148,79 @@ func tagLeaks(r *evid.Run) {
 	r.Nontrivial.Add(n)
 	r.Sample(Case{Family: "tag-leak", Type: fams[0].name, OptSet: "omitempty", Depth: 1})
 	r.Bound("tag leaks: %d (type, format/string) families x {omitempty, omitzero, both} x {value, pointer} x empty and non-empty values, as first and last member around 7 untagged members", len(fams))
+}
+
+// ---- member names of every character class ----
+//
+// The name of a member may hold any characters the tag syntax allows: DEL and C1 controls, non-printable runes beyond
+// the BMP, characters the escape options care about, line separators, multi-byte characters. Marshal must write a
+// valid, decodable spelling of each and Unmarshal must find the field again, under the default and the escape options.
+
+func memberNames(r *evid.Run) {
+	names := []string{"\x7f", "a\x7fb", "\U000e0001", "\U000e0001x", "\u0080", "\u2028", "\u2029", "<>&", "\u00e9", "\U0001F600", "with space", "tab\there", "nul\x00", "\ufeff", "\ufffd", "\u00ad", "a\u200bb", "-", "\u00fcn\u00ef", "\U00010000"}
+	optSets := [][]jsonv2.Options{{jsonv2.Deterministic(true)}, {jsontext.EscapeForHTML(true), jsontext.EscapeForJS(true)}, {jsonv1.DefaultOptionsV1()}, {jsonv2.StringifyNumbers(true), jsonv2.OmitZeroStructFields(true)}}
+	var n, skipped int64
+	for ni, name := range names {
+		// the name as it stands, or single-quoted where the tag syntax asks for it
+		var st reflect.Type
+		for si, spelled := range []string{name, "'" + strings.NewReplacer(`\`, `\\`, `'`, `\'`).Replace(name) + "'"} {
+			if name == "-" && si == 0 {
+				continue // a bare "-" means "ignore this field"; the name "-" has to be quoted
+			}
+			st = reflect.StructOf([]reflect.StructField{{Name: "A", Type: reflect.TypeOf(0)}, {Name: "N", Type: reflect.TypeOf(0), Tag: reflect.StructTag(`json:` + strconv.Quote(spelled))}, {Name: "Z", Type: reflect.TypeOf("")}})
+			if _, err := jsonv2.Marshal(reflect.New(st).Elem().Interface()); err == nil || !strings.Contains(err.Error(), "tag") {
+				break
+			}
+			st = nil
+		}
+		if st == nil {
+			skipped++
+			continue
+		}
+		v := reflect.New(st).Elem()
+		v.Field(0).SetInt(1)
+		v.Field(1).SetInt(7)
+		v.Field(2).SetString("z")
+		for oi, opts := range optSets {
+			n++
+			msg := func() (msg string) {
+				defer func() {
+					if p := recover(); p != nil {
+						msg = fmt.Sprintf("library panic: %v", p)
+					}
+				}()
+				b, err := jsonv2.Marshal(v.Interface(), opts...)
+				if err != nil {
+					return fmt.Sprintf("Marshal failed: %v", err)
+				}
+				tree := refjsonTree(b)
+				if tree == nil || len(tree) != 3 || tree[1] != name {
+					return fmt.Sprintf("Marshal output %q does not carry the member name %q as its second name", b, name)
+				}
+				back := reflect.New(st)
+				if err := jsonv2.Unmarshal(b, back.Interface(), opts...); err != nil {
+					return fmt.Sprintf("Unmarshal rejects Marshal's own output %q: %v", b, err)
+				}
+				if back.Elem().Field(1).Int() != 7 {
+					return fmt.Sprintf("the member named %q was not stored back into its field (output %q)", name, b)
+				}
+				return ""
+			}()
+			if msg != "" {
+				r.Violation(fmt.Sprintf("c04|member-name|%d|%d", ni, oi), fmt.Sprintf("struct member named %q, option set #%d: %s", name, oi, msg), Case{Family: "member-name", Index: ni, Value: oi}, nil)
+			}
+		}
+	}
+	r.Evaluations.Add(n)
+	r.Nontrivial.Add(n)
+	r.Bound("member names: %d names (DEL, C1 control, non-printable runes beyond the BMP, U+2028/9, HTML characters, NUL, BOM, U+FFFD, soft hyphen, zero-width space, '-', multi-byte) x 4 option sets: the output is valid, carries the name, and decodes back into the field (%d names not expressible as a tag were skipped)", len(names), skipped)
+}
+
+// refjsonTree returns the member names of a JSON object text in order (nil if the text is not a valid object).
+func refjsonTree(b []byte) []string {
+	t := refjson.Tree(b, refjson.Opts{})
+	if t == nil || t.Kind != '{' {
+		return nil
+	}
+	return t.Names
 }
